@@ -401,6 +401,8 @@ impl Disk {
 
         // FAT entry one is the media type
         trace!("setup the first FAT");
+        // every sector has just been overwritten: a FAT buffer opened earlier describes the old volume
+        self.maybe_fat = None;
         let (typ,buf) = self.get_fat_buffer()?;
         fat::set_cluster(0, media + 0xf00, typ, buf);
         // FAT entry two is EOC
